@@ -107,7 +107,8 @@ class PersistentMixin(Module):
             try:
                 pobj = self.parameters[pname]
                 if getattr(pobj, 'persistent', False):
-                    result[pname] = self.parameters[pname].datatype.import_value(value)
+                    # validate: an entry not (or no longer) valid for the datatype must be ignored
+                    result[pname] = pobj.datatype.validate(pobj.datatype.import_value(value), pobj.value)
             except Exception as e:
                 # ignore invalid persistent data (in case parameters have changed)
                 self.log.warning('can not restore %r to %r (%r)', pname, value, e)
